@@ -406,6 +406,21 @@ def _auto(b, e):
     if k == "index" and len(e["ops"]) == 2:
         from ..bounds import container
         B = Bounds(_F(b, e))
+        ix = deep_strip(e["ops"][1])
+        if ix[0] == 'agg' and re.search(r"ops::(range::)?Range(To|From|Inclusive|ToInclusive)?$|^Range(To|From)?$", strip_generics(str(ix[1]))):
+            # slicing: `c[a..b]` needs a <= b <= len, `c[..b]` b <= len, `c[a..]` a <= len
+            L = ('len', container(e["ops"][0]))
+            kind_ = strip_generics(str(ix[1])).split("::")[-1]
+            parts = list(ix[3])
+            okr = None
+            if kind_ == "RangeTo" and len(parts) == 1:
+                okr = B.le(parts[0], L)
+            elif kind_ == "RangeFrom" and len(parts) == 1:
+                okr = B.le(parts[0], L)
+            elif kind_ == "Range" and len(parts) == 2:
+                okr = B.le(parts[0], parts[1]) and B.le(parts[1], L)
+            if okr:
+                return f"slice range `{tstr(ix)[:60]}` within the length of the sliced collection (interval / ordering closure)"
         if deep_strip(e["ops"][1])[0] != 'agg' and B.lt(e["ops"][1], ('len', container(e["ops"][0]))):
             return f"index `{tstr(deep_strip(e['ops'][1]))[:60]}` < len of the indexed collection by interval / ordering closure (search results, range items, dominating facts)"
         from ..pat import unref
@@ -737,6 +752,8 @@ def _iter_source(t):
         t = t[1]
     if t[0] == 'call':
         c = canon(t[1])
+        if c.endswith("into_iter") and re.search(r"IntoIterator for &('\w+ )?(mut )?(\[|(std::vec::|alloc::vec::)?Vec<)|^<&('\w+ )?(mut )?\[|^<&('\w+ )?(mut )?(std::vec::|alloc::vec::)?Vec<|^<\[", str(t[1])):
+            return "into_iter over a slice / Vec / array reference"       # `for x in &buf[..n]`: as many rounds as the slice has elements
         if c.endswith("IntoIterator::into_iter") or c.endswith("Iterator::take") or c.endswith("Iterator::enumerate") or c.endswith("Iterator::rev") or c.endswith("Iterator::map"):
             inner = _iter_source(t[2][0])
             if c.endswith("Iterator::take"):
